@@ -419,6 +419,11 @@ def corpus(spec_id):
     if spec_id in ("grounder", "negative-conditions-remover", "quantifiers-remover"):
         out += traj_corpus()[::4]
     out += suffix_corpus(spec_id)
+    if spec_id in ("negative-conditions-remover", "pipeline:grounder+negative-conditions"):
+        out += negated_names_corpus()
+    if spec_id in ("usertype-fluents-remover", "pipeline:usertype+quantifiers+disjunctive"):
+        import random as _random
+        out += param_name_family(_random.Random(0), 4)
     if spec_id in ("state-invariants-remover", "bounded-types-remover"):
         # the invariant / the bound must also hold in the LAST state of a plan
         env, tm, em, T, p, objs = base("inv-final-state")
@@ -666,6 +671,84 @@ def suffix_corpus(spec_id):
 
     out.append(mk("suffix-clash-declared-after", ["load", "load_0", "load_1", "load_a"]))
     out.append(mk("suffix-clash-declared-before", ["load_0", "load_a", "load_a_0", "load"]))
+    return out
+
+
+def param_name_family(rng, n):
+    """object-valued fluents (and actions) whose PARAMETER names equal the names the compilers generate: the parameter
+    UsertypeFluentsRemover adds to a fluent f(args) -> T is called <t lower-case>, <t>_0, <t>_1, ...; the variables its
+    walker introduces are called <fluent>_<type>"""
+    from collections import OrderedDict
+    from unified_planning.environment import Environment
+    from unified_planning.model import Fluent, Object, Problem, InstantaneousAction
+    out = []
+    for i in range(n):
+        env = Environment()
+        tm, em = env.type_manager, env.expression_manager
+        tn = rng.choice(["Location", "T", "loc", "Via"])
+        low = tn.lower()
+        T = tm.UserType(tn)
+        p = Problem("pn-%d" % i, env)
+        objs = [Object(nm, T, env) for nm in rng.sample(["l1", "l2", low + "_1", "l_3"], 2)]
+        p.add_objects(objs)
+        pool = list(dict.fromkeys([low, low + "_0", low + "_1", low + "_0_0", "x", "via_" + low, "via", tn]))
+        k = rng.choice([1, 2, 2, 3])
+        if i == 0:
+            names = [low, low + "_0"]
+        elif i == 1:
+            names = [low + "_0", low, low + "_1"]
+        else:
+            names = rng.sample(pool, k)
+        via = Fluent("via", T, OrderedDict((nm, T) for nm in names), env)
+        p.add_fluent(via, default_initial_value=objs[0])
+        here = Fluent("here", T, environment=env)
+        p.add_fluent(here, default_initial_value=objs[0])
+        g = Fluent("g", tm.BoolType(), environment=env)
+        p.add_fluent(g, default_initial_value=False)
+        pnames = rng.sample(pool, len(names) + 1)
+        a = InstantaneousAction("go", OrderedDict((nm, T) for nm in pnames), env)
+        args = [a.parameter(nm) for nm in pnames[:len(names)]]
+        a.add_precondition(em.Equals(via(*args), here))
+        a.add_effect(here, a.parameter(pnames[-1]))
+        a.add_effect(via(*args), here)
+        b = InstantaneousAction("mark", _env=env)
+        b.add_precondition(em.Equals(via(*[objs[1]] * len(names)), via(*[objs[0]] * len(names))))
+        b.add_effect(g, True)
+        p.add_action(a); p.add_action(b)
+        p.add_goal(em.And(g, em.Equals(here, objs[1])))
+        out.append(HandGen(p, "object-fluent-parameter-names"))
+    return out
+
+
+def negated_names_corpus():
+    """fluents a, not_a, a_0 (and not_a_0) all read under a negation: the names of the mirror fluents must be fresh
+    with respect to each other, not only to the original problem"""
+    from unified_planning.environment import Environment
+    from unified_planning.model import Fluent, Problem, InstantaneousAction
+    out = []
+    for names in (["a", "not_a", "a_0"], ["a_0", "not_a", "a"], ["a", "not_a", "not_a_0", "a_0"], ["x", "not_x", "not_not_x"]):
+        env = Environment()
+        tm, em = env.type_manager, env.expression_manager
+        p = Problem("negnames-" + "-".join(names), env)
+        fl = []
+        for nm in names:
+            f = Fluent(nm, tm.BoolType(), environment=env)
+            p.add_fluent(f, default_initial_value=False)
+            fl.append(f)
+        g = Fluent("g", tm.BoolType(), environment=env)
+        p.add_fluent(g, default_initial_value=False)
+        for j, f in enumerate(fl):
+            a = InstantaneousAction("t%d" % j, _env=env)
+            a.add_precondition(em.Not(f))
+            a.add_effect(f, True)
+            p.add_action(a)
+        fin = InstantaneousAction("fin", _env=env)
+        fin.add_precondition(em.And([em.FluentExp(f) for f in fl[:2]]))
+        fin.add_precondition(em.Not(fl[-1]))
+        fin.add_effect(g, True)
+        p.add_action(fin)
+        p.add_goal(g)
+        out.append(HandGen(p, "negated-fluent-names-" + "-".join(names)))
     return out
 
 
@@ -993,15 +1076,26 @@ def build_cases(ctx, per_compiler, max_insts, adversarial=0.0, only=None):
             cases.append(Case(len(cases), spec, g).run(max(max_insts, 40)))
         fam = []
         nf = max(3, per_compiler // 4)
+
+        def safe(builder, *args, **kw):      # a family that cannot be built is counted, never a harness crash
+            try:
+                return builder(*args, **kw)
+            except Exception as e:  # noqa
+                stats["family_build_errors"] = stats.get("family_build_errors", 0) + 1
+                stats["family_build_error_last"] = "%s: %s" % (type(e).__name__, str(e)[:120])
+                return []
+
         if spec["id"] == "trajectory-constraints-remover":
-            fam += traj_family(rng, 2 * nf, allow_implies=False)
+            fam += safe(traj_family, rng, 2 * nf, allow_implies=False)
         if spec["id"] in ("grounder", "negative-conditions-remover", "quantifiers-remover", "bounded-types-remover",
                           "state-invariants-remover", "usertype-fluents-remover"):
-            fam += traj_family(rng, max(2, nf // 2), allow_implies=True)
+            fam += safe(traj_family, rng, max(2, nf // 2), allow_implies=True)
         if spec["id"] == "bounded-types-remover":
-            fam += zero_bound_family(rng, 10 + nf)
+            fam += safe(zero_bound_family, rng, 10 + nf)
         if spec["id"] in ("grounder", "pipeline:grounder+negative-conditions"):
-            fam += graph_family(rng, nf)
+            fam += safe(graph_family, rng, nf)
+        if spec["id"] in ("usertype-fluents-remover", "pipeline:usertype+quantifiers+disjunctive", "grounder", "quantifiers-remover"):
+            fam += safe(param_name_family, rng, nf)
         comp0 = spec["make"]()
         comp0 = comp0._compilers[0] if spec["pipeline"] else comp0
         fam = [g for g in fam if comp0.supports(g.problem.kind)]
